@@ -292,8 +292,10 @@ func (k lkind) width() int {
 	return 0
 }
 
-func (k lkind) isNum() bool    { return k == kInt || k == kUint || k == kByte || k == kInt8 }
-func (k lkind) isSlice() bool  { return k == kBytes || k == kInts || k == kInt8s || k == kUints || k == kInt8ss }
+func (k lkind) isNum() bool { return k == kInt || k == kUint || k == kByte || k == kInt8 }
+func (k lkind) isSlice() bool {
+	return k == kBytes || k == kInts || k == kInt8s || k == kUints || k == kInt8ss
+}
 func (k lkind) isSigned() bool { return k == kInt || k == kInt8 }
 
 func (k lkind) elem() lkind {
@@ -341,7 +343,7 @@ type loopSet struct {
 	// functions translated under the assumption that the arrays of their parameters do not overlap
 	disjoint map[string]bool
 	nowrap   map[string]bool // functions translated under the assumption that `i += k` in their loop headers does not wrap around
-	ns       string // namespace the functions are generated in (for callers in other namespaces)
+	ns       string          // namespace the functions are generated in (for callers in other namespaces)
 }
 
 type loopCtx struct {
@@ -387,17 +389,18 @@ type loopTr struct {
 	mayOverlap []string               // output buffers accepted only under the assumption `disjoint` (for the doc comment)
 	synthCond  map[*ast.IfStmt]string // conditionals made from switch clauses: the Lean text of the condition ("" = translate Cond)
 	// methods, array fields, swapped array pointers, prefix reslicing (see loops_recv.go)
-	name      string               // the name under which the function was requested ("f" or "T.m")
-	recv      types.Object         // the receiver `c *T` (nil for a function)
-	ctor      bool                 // the function is a constructor: recv is the local `e := new(T)` it returns (loops_recv.go)
-	ctorDef   *ast.AssignStmt      // that statement
-	fields    []types.Object       // the fields of T the body uses, in declaration order: parameters c_f of the translation
-	fieldOuts []types.Object       // those of them the body writes: additional components of the result
-	tagged    map[types.Object]int // array-pointer parameters that are swapped: variable = (tag, content), see Go.byTag
-	restBuf   map[types.Object]bool // output buffers cut by `x = x[:k]`: the part behind the window is kept in x_rest
-	absDeps       map[string]string // abstract methods called: parameter name -> Lean type (loops_call.go)
-	assumedNoWrap bool // a loop header was accepted under the !nowrap assumption (for the doc comment)
-	hoisted   map[*ast.CallExpr]hoistedVal // calls that may panic, bound in front of the statement that contains them (loops_call.go)
+	name          string                       // the name under which the function was requested ("f" or "T.m")
+	recv          types.Object                 // the receiver `c *T` (nil for a function)
+	ctor          bool                         // the function is a constructor: recv is the local `e := new(T)` it returns (loops_recv.go)
+	ctorDef       *ast.AssignStmt              // that statement
+	fields        []types.Object               // the fields of T the body uses, in declaration order: parameters c_f of the translation
+	fieldOuts     []types.Object               // those of them the body writes: additional components of the result
+	tagged        map[types.Object]int         // array-pointer parameters that are swapped: variable = (tag, content), see Go.byTag
+	restBuf       map[types.Object]bool        // output buffers cut by `x = x[:k]`: the part behind the window is kept in x_rest
+	capSens       map[types.Object]bool        // slice parameters that are sliced with an upper bound (Go checks it against the capacity)
+	absDeps       map[string]string            // abstract methods called: parameter name -> Lean type (loops_call.go)
+	assumedNoWrap bool                         // a loop header was accepted under the !nowrap assumption (for the doc comment)
+	hoisted       map[*ast.CallExpr]hoistedVal // calls that may panic, bound in front of the statement that contains them (loops_call.go)
 }
 
 func (t *loopTr) fail(n ast.Node, format string, a ...interface{}) {
